@@ -1087,3 +1087,50 @@ def VersionParse(inp, tab, ev):
                 "back": B(int(ver).to_bytes(4, "big"))}
     ok, r = call(go)
     ev["res"] = res_of(ok, r)
+
+
+# ------------------------------------------- growth beyond the listed properties
+def _merkle_oracles(tab, hs):
+    hs = [bytes(h) for h in hs]
+    while len(hs) > 1:
+        if len(hs) % 2:
+            hs = hs + [hs[-1]]
+        hs = [tab.hash256(hs[i] + hs[i + 1]) for i in range(0, len(hs), 2)]
+
+
+@act
+def MerkleLevel(inp, tab, ev):
+    from btc_hd_wallet import helper
+    _merkle_oracles(tab, inp)
+    lst = [bytes(h) for h in inp]
+    ok, v = call(helper.merkle_parent_level, lst)
+    ev["after"] = [B(h) for h in lst]
+    ev["res"] = res_of(ok, v, lambda lv: [B(h) for h in lv])
+
+
+@act
+def MerkleRoot(inp, tab, ev):
+    from btc_hd_wallet import helper
+    _merkle_oracles(tab, inp)
+    lst = [bytes(h) for h in inp]
+    ok, v = call(helper.merkle_root, lst)
+    ev["res"] = res_of(ok, v, B)
+
+
+@act
+def ScriptAdd(inp, tab, ev):
+    from btc_hd_wallet.script import Script
+    a, b = Script(cmds_to_py(inp["a"])), Script(cmds_to_py(inp["b"]))
+
+    def go():
+        s = a + b
+        return {"cmds": cmds_to_json(s.cmds), "raw": B(s.raw_serialize())}
+    ok, v = call(go)
+    ev["res"] = res_of(ok, v)
+
+
+@act
+def Bech32DecodeAddress(inp, tab, ev):
+    from btc_hd_wallet import helper
+    ok, v = call(helper.bech32_decode_address, untext(inp))
+    ev["res"] = res_of(ok, v, B)
